@@ -54,6 +54,7 @@ FORMATS = {
     'vcfgt': ('.vcf', 'bionumpy.io.vcf_buffers:VCFMatrixBuffer'),
     'vcfph': ('.vcf', 'bionumpy.io.vcf_buffers:PhasedVCFMatrixBuffer'),
     'vcfhap': ('.vcf', 'bionumpy.io.vcf_buffers:PhasedHaplotypeVCFMatrixBuffer'),
+    'vcf2': ('.vcf', 'bionumpy.io.vcf_buffers:VCFBuffer2'),
     'fastq': ('.fq', None),
     'fasta2': ('.fa', 'bionumpy.io.one_line_buffer:TwoLineFastaBuffer'),
     'fasta': ('.fa', None),
@@ -94,6 +95,7 @@ def file_bytes(case):
 BOUNDARY = ['9', '10', '99', '100', '255', '256', '32767', '32768', '65535', '65536', '999999999', '1000000000',
             '2147483647', '2147483648', '4294967295', '4294967296', '9999999999', '10000000000',
             '99999999999999', '100000000000000', '999999999999999']
+VCFS = ('vcf', 'vcfgt', 'vcfph', 'vcfhap', 'vcf2')
 NAME = 'abcXYZ019_.:-'
 SEQ = 'ACGTNacgtn'
 
@@ -207,21 +209,32 @@ def _rec(g, fmt, opts):
                 g.sint(opts['p_neg'], 0), s, g.qual(len(s))] + tags
     if fmt == 'gfa':
         return ['S', g.ident(), g.seq()]
-    if fmt in ('vcf', 'vcfgt', 'vcfph', 'vcfhap'):
+    if fmt in VCFS:
         info = _info_text(g, opts)
         rec = [g.ident(), g.uint(), r.choice(['.', g.text(1)]), g.seq(1), r.choice(['.', g.seq(1), g.seq(1) + ',' + g.seq(1)]),
                r.choice(['.', g.uint(3)]), r.choice(['.', 'PASS', g.text(1)]), info]
         ns = opts.get('n_samples', 0)
         if ns:
-            rec.append('GT' if not opts.get('gt_extra') else 'GT:DP')
-            for _ in range(ns):
+            # sample cells of mixed shapes, independently per cell: the GT sub-field alone ("./." next to "0/1:35:99":
+            # trailing sub-fields may be dropped), or GT followed by 1..3 ':'-separated sub-fields, total width 3..12
+            rec.append(r.choice(['GT', 'GT:DP', 'GT:DP:GQ']))
+            for k in range(ns):
                 if fmt == 'vcfph':
                     gt = r.choice('01') + '|' + r.choice('01')
                 elif fmt == 'vcfhap':
                     gt = r.choice('01234.') + '|' + r.choice('01234.')
+                elif r.random() < 0.25:
+                    gt = './.'
                 else:
                     gt = r.choice('012.') + r.choice('|/') + r.choice('012.')
-                rec.append(gt + (':%s' % g.uint(2) if opts.get('gt_extra') else ''))
+                x = r.random()
+                mode = opts.get('cell_shapes', 'mixed')
+                if mode == 'plain' or (mode == 'mixed' and x < 0.45):
+                    rec.append(gt)
+                else:
+                    subs = [g.uint(r.randint(1, 3)) for _ in range(r.randint(1, 3))]
+                    cell = gt + ':' + ':'.join(subs)
+                    rec.append(cell[:12].rstrip(':'))
         return rec
     if fmt == 'fastq':
         s = g.seq(opts.get('min_seq', 0))
@@ -253,21 +266,52 @@ def _info_text(g, opts):
             items.append(key + '=' + v)
         else:
             items.append(key + '=' + g.text(0, 'abcXYZ019_.:-,' if lst else 'abcXYZ019_.:-'))
+    if opts.get('neighbours', True):
+        items += _neighbour_items(g, decl, items)
     r.shuffle(items)
     return ';'.join(items) if items else '.'
 
 
 KEYS = ['DP', 'AF', 'DB', 'S', 'AC', 'F1', 'A', 'AA', 'DPX', 'END', 'H2', 'MQ0']
+# families in which one key is a proper prefix / suffix / infix of another (dbSNP style: G5 / G5A, PM / PMC, DB / DBID)
+FAMILIES = [['G5', 'G5A'], ['PM', 'PMC'], ['DB', 'DBID'], ['A', 'AA', 'AAA'], ['DP', 'XDP', 'DPX', 'XDPX'], ['AC', 'MAC'],
+            ['ND', 'END', 'ENDS'], ['S', 'SS']]
+TYPES = ['Integer', 'Integer', 'Float', 'Flag', 'Flag', 'String']
 
 
 def _decl(g):
     r = g.r
-    keys = r.sample(KEYS, r.randint(1, 5))
+    if r.random() < 0.5:
+        # a whole family (or two), each member typed independently: Flag vs Flag, Flag vs valued, valued vs valued
+        keys = []
+        for fam in r.sample(FAMILIES, r.randint(1, 2)):
+            keys += r.sample(fam, r.randint(2, len(fam)))
+        keys = list(dict.fromkeys(keys))
+        if r.random() < 0.4:
+            keys += [k for k in r.sample(KEYS, 2) if k not in keys]
+        r.shuffle(keys)
+    else:
+        keys = r.sample(KEYS, r.randint(1, 5))
     out = []
     for k in keys:
-        typ = r.choice(['Integer', 'Integer', 'Float', 'Flag', 'String'])
+        typ = r.choice(TYPES)
         lst = False if typ == 'Flag' else (r.random() < 0.4)
         out.append([k, typ, lst])
+    return out
+
+
+def _neighbour_items(g, decl, present):
+    """undeclared INFO items whose key extends / truncates a declared key (legal in VCF; never equal to a declared key)"""
+    r = g.r
+    declared = {k for k, _, _ in decl}
+    out, used = [], set()
+    for k, typ, lst in decl:
+        if r.random() < 0.35:
+            cand = r.choice([k + 'X', 'X' + k, 'X' + k + 'X', k + k, k[:-1] or 'Q', k[1:] or 'Q'])
+            if cand in declared or cand in used or not cand:
+                continue
+            used.add(cand)
+            out.append(cand if r.random() < 0.5 else cand + '=' + g.text(0, 'abc019'))
     return out
 
 
@@ -297,15 +341,15 @@ def _mk(rng, fmt, n, W, crlf=False, final_newline=True, **kw):
     if n <= 2 and fmt.startswith('vcf') and rng.random() < 0.8:
         opts['p_absent'] = 0.05     # very short INFO columns are finding C02-info-short-buffer: keep them a minority
     case = dict(fmt=fmt, crlf=crlf, final_newline=final_newline, header=[], comments={}, decl=None, width=0)
-    if fmt in ('vcf', 'vcfgt', 'vcfph', 'vcfhap'):
+    if fmt in VCFS:
         decl = _decl(g) if opts.pop('declared', True) else None
         opts['decl'] = decl
         case['decl'] = decl
         if fmt != 'vcf':
-            opts['n_samples'] = rng.randint(1, 3)
+            opts['n_samples'] = rng.choice([1, 2, 3, 3, 4, 6])
         elif rng.random() < 0.3:
             opts['n_samples'] = rng.randint(1, 2)
-            opts['gt_extra'] = rng.random() < 0.5
+        opts.setdefault('cell_shapes', rng.choice(['mixed', 'mixed', 'mixed', 'plain', 'wide']))
         case['header'] = _vcf_header(decl, opts.get('n_samples', 0), g)
     elif fmt == 'sam':
         if rng.random() < 0.7:
@@ -343,7 +387,7 @@ def generate(tier, seed):
     reps = 1 if tier == 'quick' else 8
     delimited = ['bed3', 'bed6', 'bed12', 'bdg', 'npk', 'sizes', 'gtf', 'gff', 'wig', 'pairs', 'sam', 'gfa']
     # small, regular cases first: 1..3 records, widths 0..3, LF and CRLF
-    for fmt in delimited + ['vcf', 'vcfgt', 'vcfph', 'vcfhap', 'fastq', 'fasta2', 'fasta']:
+    for fmt in delimited + ['vcf', 'vcfgt', 'vcfph', 'vcfhap', 'vcf2', 'fastq', 'fasta2', 'fasta']:
         for n in (1, 2, 3):
             for crlf in (False, True):
                 for k in range(2 * reps):
@@ -358,7 +402,7 @@ def generate(tier, seed):
             cases.append(_mk(rng, fmt, n, W, crlf=(rep % 4 == 3 and (fmt not in ('sam', 'gff', 'wig') or rep == 3)), final_newline=(rep % 5 != 2),
                              p_neg=rng.choice([0, 0, 0.3]), p_plus=rng.choice([0, 0, 0.2]),
                              p_dot=rng.choice([0, 0, 1.0]), p_tags=rng.choice([0, 0.5, 1])))
-        for fmt in ('vcf', 'vcf', 'vcfgt', 'vcfph', 'vcfhap'):
+        for fmt in ('vcf', 'vcf', 'vcfgt', 'vcfph', 'vcfhap', 'vcf2', 'vcf2'):
             cases.append(_mk(rng, fmt, rng.randint(1, 6), rng.choice([1, 4, 9]), crlf=(rep % 4 == 3), final_newline=(rep % 5 != 2),
                              declared=(rng.random() < 0.8), p_absent=rng.choice([0, 0.4, 0.8]), p_dot=0))
         for fmt in ('fastq', 'fasta2', 'fasta'):
@@ -368,6 +412,17 @@ def generate(tier, seed):
         for fmt in ('bed3', 'sizes', 'bed6', 'bed12', 'bdg', 'npk', 'gtf', 'pairs', 'sam', 'vcf'):
             for W in (10, 15):
                 cases.append(_mk(rng, fmt, rng.randint(2, 5), W, crlf=(rep % 2 == 1), boundary=True))
+    # INFO key families: declared keys that are prefixes / suffixes / infixes of each other, records carrying only the
+    # longer or only the shorter one, plus undeclared neighbour keys
+    for rep in range(6 * reps):
+        for fmt in ('vcf', 'vcf', 'vcf2'):
+            cases.append(_mk(rng, fmt, rng.randint(1, 6), 4, crlf=(rep % 3 == 2), final_newline=(rep % 4 != 1),
+                             declared=True, p_absent=rng.choice([0.3, 0.5, 0.7]), p_dot=0))
+    # genotype matrices: many samples, mixed cell shapes, './.' next to wide cells, first / last sample, LF and CRLF
+    for rep in range(6 * reps):
+        for fmt in ('vcf2', 'vcf2', 'vcfgt', 'vcfph', 'vcfhap'):
+            cases.append(_mk(rng, fmt, rng.randint(1, 6), 4, crlf=(rep % 3 == 2), final_newline=(rep % 4 != 1),
+                             declared=(rep % 2 == 0), p_absent=0.3, cell_shapes='mixed'))
     # the input classes behind the recorded findings (kept rare so that other violations stay visible)
     for rep in range(2 * reps):
         cases.append(_mk(rng, 'bed6', rng.randint(2, 5), 4, p_dot=0.5))
@@ -398,6 +453,8 @@ def _canon(v):
         if v.ndim == 1:     # one symbol per row (flat alphabet encoding)
             return 'str', [c.encode('latin1').hex() for c in v.to_string()]
         return 'ints', [[int(x) for x in row] for row in np.asarray(v.raw())]
+    if type(v).__name__ == 'StringArray' and np.asarray(v.raw()).ndim == 2:
+        return 'texts', [[bytes(x).hex() for x in row] for row in np.asarray(v.raw()).tolist()]
     if type(v).__name__ == 'StringArray':
         return 'str', [s.encode('latin1').hex() for s in v.tolist()]
     if isinstance(v, RaggedArray):
@@ -490,6 +547,8 @@ def _cell(kind, v):
         return 'CNan' if v in ('nan', 'inf') else 'CRat %s %s' % (cz(v[0]), cz(v[1]))
     if kind == 'ints':
         return 'CInts %s' % zl(v)
+    if kind == 'texts':
+        return 'CTexts %s' % clist([hx(bytes.fromhex(x)) for x in v], 'list Z')
     if kind == 'floats':
         return 'CRats %s' % clist(['(%s, %s)' % (cz(a[0]), cz(a[1])) if a not in ('nan', 'inf') else '(0, 0)%Z' for a in v], '(Z*Z)')
     raise ValueError(kind)
@@ -583,7 +642,8 @@ SID_COLS = {'bed3': {0: 'chromosome'}, 'bed6': {0: 'chromosome', 3: 'name'}, 'be
             'npk': {0: 'chromosome', 3: 'name'}, 'bdg': {0: 'chromosome'}, 'wig': {0: 'chromosome'},
             'gtf': {0: 'chromosome', 2: 'feature_type'}, 'gff': {0: 'chromosome', 2: 'feature_type'},
             'pairs': {1: 'chrom1', 3: 'chrom2'}, 'sam': {0: 'name', 2: 'chromosome'}, 'gfa': {1: 'name'},
-            'vcf': {0: 'chromosome'}, 'vcfgt': {0: 'chromosome'}, 'vcfph': {0: 'chromosome'}, 'vcfhap': {0: 'chromosome'}}
+            'vcf': {0: 'chromosome'}, 'vcfgt': {0: 'chromosome'}, 'vcfph': {0: 'chromosome'}, 'vcfhap': {0: 'chromosome'},
+            'vcf2': {0: 'chromosome'}}
 # (FASTQ / FASTA names go through string_array(ragged text), which accepts only-empty names since /repo b1580f3)
 EAGER = ('gtf', 'gff', 'fasta')
 
